@@ -112,6 +112,7 @@ def pos_stream(tier, q, t, mode='full'):
     return dict(stages=[H('pos', sz(tier, q, t), mode), D('pos')], shards=16, min_stat={'valid_positions': 500})
 
 PROPS['C01'] = dict(
+    coq_crosscheck=True,
     coq_targets=['Proofs/GenWF.vo', 'Proofs/GenWFBoard.vo', 'Proofs/StatusModel.vo'],
     prop_files=['C01a'],
     scope='see theorem list; the full refinement statement is kept as C01_full',
@@ -128,6 +129,7 @@ PROPS['C02'] = dict(
     rule=POS_RULE + '; every legal move of every position is applied through both entry points (the in-place one with an unrelated pre-filled output board) and compared with Spec.apply',
 )
 PROPS['C03'] = dict(
+    coq_crosscheck=True,
     coq_targets=['Proofs/AbsBoard.vo', 'Proofs/NullMove.vo', 'Proofs/CanonAttack.vo', 'Proofs/CanonCheckers.vo', 'Proofs/CanonPinned.vo', 'Proofs/CanonNullMove.vo', 'Proofs/CanonScratch.vo'],
     scope='see theorem list',
     streams=lambda tier: [pos_stream(tier, 14, 900, 'succ')],
@@ -153,6 +155,7 @@ PROPS['C05'] = dict(
     rule=POS_RULE + '; every successor of every PosValid position must again be PosValid and accepted by is_sane, with rights / men / pawns not growing',
 )
 PROPS['C08'] = dict(
+    coq_crosscheck=True,
     coq_targets=[],
     scope='see theorem list',
     streams=lambda tier: [pos_stream(tier, 14, 900, 'succ')],
@@ -169,6 +172,7 @@ PROPS['C17'] = dict(
     rule=POS_RULE + '; every position is paired with its colour-swapped vertical mirror image (and, without castling rights, its left-right mirror image) built through the neutral encoding; moves, status, checkers, pinned and all successors must be mirror images',
 )
 PROPS['C18'] = dict(
+    coq_crosscheck=True,
     coq_targets=['Proofs/AbsBoard.vo', 'Proofs/NullMove.vo', 'Proofs/CanonAttack.vo', 'Proofs/CanonCheckers.vo', 'Proofs/CanonPinned.vo', 'Proofs/CanonNullMove.vo', 'Proofs/CanonScratch.vo'],
     scope='see theorem list',
     streams=lambda tier: [pos_stream(tier, 20, 1200, 'nosucc')],
